@@ -10,7 +10,7 @@ use lru_mem::LruCache;
 use crate::hashers::{HKind, VHasher};
 use crate::model::{Ent, Model};
 use crate::ops::*;
-use crate::tracked::{self, Cb, Owner, St, TKey, TVal};
+use crate::tracked::{self, Cb, Owner, St, TKey, TVal, NCB};
 
 pub type Cache = LruCache<TKey, TVal, VHasher>;
 
@@ -143,7 +143,7 @@ pub struct World {
     pub trace_on: bool,
     pub alloc_installed: bool,
     /// callback counts of the most recent cache operation
-    pub last_counts: [u64; 9],
+    pub last_counts: [u64; NCB],
     /// observation right after an injected panic: recorded sizes may be
     /// stale and the bound may be broken (both allowed by C16 for panics
     /// outside the closure); only structural promises are judged
@@ -153,6 +153,11 @@ pub struct World {
     /// failures of *other* properties met earlier in this case, after which the
     /// case went on from the observed state (see `resync_past_foreign`)
     pub foreign_first: Vec<Failure>,
+    /// a destructor panicked earlier in this case: nothing that follows is
+    /// C16's business (its statement enumerates the callbacks it covers)
+    pub drop_panic_seen: bool,
+    /// an iterator was forgotten earlier in this case
+    pub forget_seen: bool,
 }
 
 #[macro_export]
@@ -193,10 +198,12 @@ impl World {
             trace: Vec::new(),
             trace_on: false,
             alloc_installed: crate::alloc_installed(),
-            last_counts: [0; 9],
+            last_counts: [0; NCB],
             post_panic: false,
             lenient_sizes: false,
             foreign_first: Vec::new(),
+            drop_panic_seen: false,
+            forget_seen: false,
         };
         let limit = w.resolve_limit_initial(&cfg.limit);
         let side = w.new_side(limit, cfg.capacity.map(|c| c as usize));
@@ -217,7 +224,11 @@ impl World {
         }
     }
 
-    pub fn fail(&mut self, tags: Vec<&'static str>, sig: String, msg: String) {
+    pub fn fail(&mut self, mut tags: Vec<&'static str>, sig: String, msg: String) {
+        if self.drop_panic_seen {
+            tags.retain(|t| *t != "C16" && (*t != "C17" || self.forget_seen));
+            if tags.is_empty() { tags.push("C07"); }
+        }
         self.fails.push(Failure { tags, sig, msg, step: self.step });
     }
 
